@@ -2277,13 +2277,14 @@ def is_rigid(matrix, epsilon=1e-8):
         return False
 
     # make sure last row has no scaling
-    if np.ptp(matrix[-1] - [0, 0, 0, 1]) > epsilon:
+    if np.abs(matrix[-1] - [0, 0, 0, 1]).max() > epsilon:
         return False
 
     # check dot product of rotation against transpose
     check = np.dot(matrix[:3, :3], matrix[:3, :3].T) - _IDENTITY[:3, :3]
 
-    return np.ptp(check) < epsilon
+    # the size of the deviation: `ptp` is zero for any constant offset
+    return np.abs(check).max() < epsilon
 
 
 def scale_and_translate(scale=None, translate=None):
